@@ -126,6 +126,71 @@ def _implied_perturbation(table, ttype):
 
 
 # --------------------------------------------------------------------------- stage monitors
+def _scalar_eval(e, ev, term_value):
+    """Value of a scalar UFL expression of a scalar graph: operators evaluated here, everything else (modified
+    terminals) looked up through term_value.  Real comparisons use the real parts (UFL only admits real operands)."""
+    import cmath
+    import math
+
+    from ufl import classes as C
+
+    if isinstance(e, C.Zero):
+        return 0.0
+    if isinstance(e, C.ComplexValue):
+        return complex(e.value())
+    if isinstance(e, C.ScalarValue):
+        return e.value()
+    ops = e.ufl_operands
+    cx = lambda v: isinstance(v, complex)  # noqa: E731
+    if isinstance(e, C.Sum):
+        return ev(ops[0]) + ev(ops[1])
+    if isinstance(e, C.Product):
+        return ev(ops[0]) * ev(ops[1])
+    if isinstance(e, C.Division):
+        return ev(ops[0]) / ev(ops[1])
+    if isinstance(e, C.Power):
+        return ev(ops[0]) ** ev(ops[1])
+    if isinstance(e, C.Abs):
+        return abs(ev(ops[0]))
+    if isinstance(e, C.Conj):
+        v = ev(ops[0])
+        return v.conjugate() if cx(v) else v
+    if isinstance(e, C.Real):
+        v = ev(ops[0])
+        return v.real if cx(v) else v
+    if isinstance(e, C.Imag):
+        v = ev(ops[0])
+        return v.imag if cx(v) else 0.0
+    if isinstance(e, C.MathFunction) and not isinstance(e, C.BesselFunction):
+        v = ev(ops[0])
+        name = e._ufl_handler_name_
+        mod = cmath if cx(v) else math
+        table = {"sqrt": "sqrt", "exp": "exp", "ln": "log", "cos": "cos", "sin": "sin", "tan": "tan", "cosh": "cosh", "sinh": "sinh",
+                 "tanh": "tanh", "acos": "acos", "asin": "asin", "atan": "atan"}
+        if name == "erf" and not cx(v):
+            return math.erf(v)
+        if name not in table:
+            raise NotImplementedError(name)
+        return getattr(mod, table[name])(v)
+    if isinstance(e, C.MinValue):
+        return min(ev(ops[0]), ev(ops[1]))
+    if isinstance(e, C.MaxValue):
+        return max(ev(ops[0]), ev(ops[1]))
+    if isinstance(e, C.Atan2):
+        return math.atan2(ev(ops[0]), ev(ops[1]))
+    if isinstance(e, C.Condition):
+        tn = type(e).__name__
+        a = [ev(o) for o in ops]
+        if tn in ("LT", "GT", "LE", "GE"):
+            a = [x.real if cx(x) else x for x in a]
+        return {"LT": lambda: a[0] < a[1], "GT": lambda: a[0] > a[1], "LE": lambda: a[0] <= a[1], "GE": lambda: a[0] >= a[1],
+                "EQ": lambda: a[0] == a[1], "NE": lambda: a[0] != a[1], "AndCondition": lambda: a[0] and a[1],
+                "OrCondition": lambda: a[0] or a[1], "NotCondition": lambda: not a[0]}[tn]()
+    if isinstance(e, C.Conditional):
+        return ev(ops[1]) if ev(ops[0]) else ev(ops[2])
+    return term_value(e)
+
+
 class StageMonitors:
     """Contracts on real ffcx stage functions while a compile runs (DESIGN 2.5):
 
@@ -135,7 +200,8 @@ class StageMonitors:
     * integral_data (post): see C06.
     """
 
-    def __init__(self, tol=2e-6):
+    def __init__(self, tol=2e-6, complex_values=False):
+        self.complex_values = complex_values
         self.counters = {}
         self.violations = []
         self.tol = tol
@@ -165,10 +231,107 @@ class StageMonitors:
         self._p.set(et, "build_optimized_tables", wrapped)
         if getattr(ii, "build_optimized_tables", None) is orig:
             self._p.set(ii, "build_optimized_tables", wrapped)
+
+        # argument factorization contract (post): S_target == sum_k F[fi_k] * prod(arguments in argkey_k), checked
+        # numerically for random values of the modified terminals (arguments real: basis functions are real-valued)
+        forig = ii.compute_argument_factorization
+
+        @functools.wraps(forig)
+        def fwrapped(S, rank):
+            F = forig(S, rank)
+            try:
+                mon._check_factorization(S, F, rank)
+            except Exception as e:  # monitor failure is never a verdict
+                mon.count("factorization_monitor_errors")
+                mon.last_error = f"{type(e).__name__}: {e}"
+            return F
+
+        self._p.set(ii, "compute_argument_factorization", fwrapped)
         return self
 
     def __exit__(self, *a):
         self._p.restore()
+
+    # ---- factorization contract
+    def _check_factorization(self, S, F, rank, samples=2):
+        import zlib
+
+        from ufl import classes as C
+
+        def is_arg(e):
+            t = e
+            while not t._ufl_is_terminal_:
+                t = t.ufl_operands[0]
+            return isinstance(t, C.Argument)
+
+        targets = [(i, v) for i, v in S.nodes.items() if v.get("target", False)]
+        # (component -> [(argkey, fi)]) from F
+        terms = {}
+        for fi, v in F.nodes.items():
+            for argkey, comp in zip(v.get("target", []), v.get("component", [])):
+                terms.setdefault(comp, []).append((tuple(argkey), fi))
+        for argkey_list in terms.values():
+            keys = [k for k, _ in argkey_list]
+            if len(keys) != len(set(keys)):
+                self._viol(f"factorization lists an argument combination twice: {sorted(keys)}", "factorization-contract")
+        done = 0
+        for sample in range(4 * samples):
+            if done >= samples:
+                break
+            vals = {}
+            all_finite = True
+
+            def term_value(e, _s=sample):
+                r = vals.get(e)
+                if r is None:
+                    h = zlib.crc32(repr(e).encode() + bytes([_s]))
+                    rng = np.random.default_rng(h)
+                    r = rng.uniform(0.4, 1.6)
+                    if self.complex_values and not is_arg(e):
+                        r = r + 1j * rng.uniform(-0.8, 0.8)
+                    vals[e] = r
+                return r
+
+            memo = {}
+
+            def ev(e):
+                r = memo.get(e)
+                if r is None:
+                    try:
+                        r = _scalar_eval(e, ev, term_value)
+                    except (ValueError, ZeroDivisionError, OverflowError):
+                        r = float("nan")  # outside the real domain for this random sample: the sample is not used
+                    memo[e] = r
+                return r
+
+            for ti, tv in targets:
+                want = ev(tv["expression"])
+                for comp in tv["component"]:
+                    got = 0.0
+                    mag = 0.0
+                    tl = terms.get(comp, [])
+                    if not tl and rank > 0:
+                        self.count("factorization_zero_targets")
+                    for argkey, fi in tl:
+                        t = ev(F.nodes[fi]["expression"])
+                        for ai in argkey:
+                            ae = F.nodes[ai]["expression"]
+                            if not is_arg(ae):
+                                self._viol(f"factorization argkey {argkey} refers to a non-argument node {str(ae)[:60]}", "factorization-contract")
+                            t = t * ev(ae)
+                        got = got + t
+                        mag += abs(t)
+                    if not (np.isfinite(want) and np.isfinite(got)):
+                        self.count("factorization_nonfinite_samples")
+                        all_finite = False
+                        continue
+                    self.count("factorization_contract_evals")
+                    if abs(got - want) > 1e-9 * (mag + abs(want)) + 1e-300:
+                        self._viol(f"argument factorization does not reproduce the integrand: component {comp} rank {rank}: "
+                                   f"integrand={want!r} factorized sum={got!r} ({len(tl)} terms)", "factorization-contract")
+                    elif abs(want) > 0:
+                        self.count("factorization_contract_nonzero_ok")
+            done += all_finite
 
     # ---- table contract
     def _check_tables(self, mt_tables, rule, cell, integral_type, entity_type, kw):
@@ -289,5 +452,6 @@ class StageMonitors:
             elif ok:
                 self.count("table_contract_values_ok")
 
-    def _viol(self, what):
-        self.violations.append({"mechanism": "table-contract", "what": what, "replay": {}})
+    def _viol(self, what, mechanism="table-contract"):
+        if len(self.violations) < 20:
+            self.violations.append({"mechanism": mechanism, "what": what, "replay": {}})
